@@ -558,7 +558,17 @@ class Writer(GenericWriter):
             self.validate_fn(
                 record, self.schema, self._named_schemas, "", True, self.options
             )
-        write_data(self.io, record, self.schema, self._named_schemas, "", self.options)
+        pending = self.io._fo.tell()
+        try:
+            write_data(
+                self.io, record, self.schema, self._named_schemas, "", self.options
+            )
+        except Exception:
+            # Discard the partial encoding of the rejected record so it cannot
+            # end up in the next block
+            self.io._fo.seek(pending, SEEK_SET)
+            self.io._fo.truncate()
+            raise
         self.block_count += 1
         if self.io._fo.tell() >= self.sync_interval:
             self.dump()
